@@ -55,7 +55,9 @@ def rand_mps(rng, L, d, Ds, qstyle='consistent', entries='complex', qd=None):
         # make the trailing charge reachable from the last-but-one bond so that the state is generically non-zero
         pass
     psi = ptn.MPS(qd, qD, fill='random', rng=rng)
+    kinds = [entries] * L if entries != 'mixed' else [('real', 'complex', 'int')[int(k)] for k in rng.choice(3, size=L, p=[0.45, 0.45, 0.1])]
     for i in range(L):
+        entries = kinds[i]
         if entries == 'real':
             psi.A[i] = psi.A[i].real.copy()
         elif entries == 'int':
@@ -68,7 +70,9 @@ def rand_mpo(rng, L, d, Ds, qstyle='consistent', entries='complex', qd=None, her
     assert len(Ds) == L + 1
     qD = bond_charges(rng, qd, Ds, qstyle, mpo=True)
     op = ptn.MPO(qd, qD, fill='random', rng=rng)
+    kinds = [entries] * L if entries != 'mixed' else [('real', 'complex', 'int')[int(k)] for k in rng.choice(3, size=L, p=[0.45, 0.45, 0.1])]
     for i in range(L):
+        entries = kinds[i]
         if entries == 'real':
             op.A[i] = op.A[i].real.copy()
         elif entries == 'int':
